@@ -19,7 +19,8 @@ RULE = ("subgroup trees built from generated source text (`simple_parsing.subgro
         "prefixes; the registered spellings are read from the implementation case by case, never predicted), defaults given as key / "
         "default_factory / frozen instance or absent (required). Per tree: configurations (every key or absence per visible field, "
         "all of them for small trees, sampled otherwise) x subsets of overridden leaves (none, all, sampled) x one foreign option "
-        "(leaf or subgroup option of an unselected alternative) x unknown keys x missing required keys x repeated options (last wins) "
+        "(leaf or subgroup option of an unselected alternative; when it happens to be a proper prefix of a registered spelling the "
+        "specification is silent: argparse's prefix matching is set aside) x unknown keys x missing required keys x repeated options (last wins) "
         "x non-int values x `--o v` / `--o=v`; a stream of abbreviated spellings; and Union[A, B] sub-command fields (options before / "
         "after the sub-command token, of the chosen / another member, default_factory or required). A fresh ArgumentParser per case. "
         "Non-trivial = at least one option written and the tree has a subgroup or sub-command field; distinct by full case.")
@@ -775,7 +776,22 @@ def _expect(case, obs):
     return spec_sg(case["tree"], [(t["intent"], t["v"]) for t in obs["toks"]])
 
 
+def _silent(case, obs):
+    """argparse's prefix matching on the main parser is set aside by the property: nothing is demanded when a written option
+    is not a registered spelling but a proper prefix of a registered spelling of something other than what it denotes"""
+    if case["kind"] != "sg":
+        return False
+    regs = [(o_, d) for d, os_ in obs["table"] for o_ in os_]
+    known = {o_ for o_, _ in regs}
+    for t in obs["toks"]:
+        if t["o"] not in known and any(o_.startswith(t["o"]) and d != t["intent"] for o_, d in regs):
+            return True
+    return False
+
+
 def py_spec(case, obs):
+    if _silent(case, obs):
+        return None
     e = _expect(case, obs)
     o = obs["obs"]
     shown = f"argv {obs['argv']}"
@@ -820,7 +836,7 @@ def _feature(case, obs):
             if t["o"] not in regs and any(r.startswith(t["o"]) for r in regs):
                 hit = [d for d, os_ in obs["table"] for r in os_ if r.startswith(t["o"])]
                 is_sg = any(_is_sg_dest(case["tree"], d) for d in hit)
-                return "abbreviated-subgroup-option" if is_sg else "abbreviation-of-another-option"
+                return "abbreviated-subgroup-option" if is_sg else "abbreviated-leaf-option"
     return "plain"
 
 
